@@ -28,7 +28,11 @@ def collect(tier: str, seed: int):
                 # prefixes that END in underscores: the name must still begin with exactly what was requested
                 "tmp__", "scratch___", "a_", "__"]
     names: list[tuple[str, str, str]] = []  # (experiment, prefix, name)
-    engines = [iteration.Engine(name="it"), sql.Engine(name="sq"), iteration.Engine(name="it2")]
+    # several engines carry the SAME display name (default-constructed ones, and an explicit twin): names must be
+    # distinct across engines too, whatever the engines are called
+    engines = [iteration.Engine(name="it"), sql.Engine(name="sq"), iteration.Engine(name="it2"),
+               iteration.Engine(), iteration.Engine(), sql.Engine(), sql.Engine(), iteration.Engine(name="it"),
+               sql.Engine(name="sq")]
     a = Tag("a")
     # 1. sequential: direct, via leaf construction, via materialized()
     for i in range(n_seq):
@@ -77,7 +81,7 @@ def collect(tier: str, seed: int):
         def work(i: int):
             r = random.Random(seed * 1000 + i)
             for _ in range(per_thread):
-                e = engines[r.randrange(2) * 2 if r.random() < 0.8 else 1]
+                e = engines[r.randrange(2) * 2 if r.random() < 0.5 else r.randrange(len(engines))]
                 p = prefixes[r.randrange(len(prefixes))]
                 out[i].append(("threads", p, e.get_relation_name(p)))
 
